@@ -2743,7 +2743,11 @@ primary_expression
           {
             case OBJECT_TYPE_INTEGER:
               $$.type = EXPRESSION_TYPE_INTEGER;
-              $$.value.integer = $1.value.object->value.i;
+              // The value of an object is not known until scan time. For
+              // external variables the object holds the value given at
+              // compile time, but it can be redefined later, so it must not
+              // be treated as a constant.
+              $$.value.integer = YR_UNDEFINED;
               break;
             case OBJECT_TYPE_FLOAT:
               $$.type = EXPRESSION_TYPE_FLOAT;
